@@ -89,6 +89,11 @@ CLAIMED = {
   note="Trusted: Go type checker, go/ssa (dominator tree), the explorer's branch history; lifecycle table in internal/rules/c12.go.",
   technique="path-sensitive SSA guarded-monotone-store analysis + dominance check of the candidate filter + who-may-store table, custom checker",
   ref="DESIGN.md section 4 C12"),
+ "C18": dict(
+  text="Static analysis of the disconnect path: Server.handle reaches the protocol's Close on every exit after a successful detection; each of the four Close methods is a test-and-set of closed under the connection mutex that takes the will queue (local copy, field cleared) before releasing it, repoints its proxies inside that section, drains from the head, and from the block that executes a popped will the only way out of the drain is the Pop that finds the queue empty (CFG reachability, helpers included); every will registration (8 sites, binary/text/forwarding) rewrites the command type to LOCK/UNLOCK before the push and calls no engine function; client-table lookups use the connection's own id, the entry is deleted only while it maps to this connection, and a closed connection never re-routes to itself. Two defects found this way were reproduced and repaired (fix: commits). Exactly-once under a close racing the drain, forwarding on a follower whose leader is unreachable and delivery after reconnect need running nodes and are not decided, hence 'other'.",
+  note="Trusted: Go type checker, go/ssa, the explorer's branch history.",
+  technique="path-sensitive SSA typestate/ordering analysis of Close (test-and-set, ownership transfer under mutex, must-reach) + CFG escape analysis of the drain loop + guard check on client-table updates, custom checker",
+  ref="DESIGN.md section 4 C18"),
 }
 
 NA = {
